@@ -669,6 +669,39 @@ def gen_history_programs(r, n, maxlen=25, removals=True, full=False):
         ops.append("list c0")
         steps.append((len(ops) - 1, "list", None, None, None))
         progs.append(Program(f"hist{i}", ops, tags={"steps": steps, "keys": keys}))
+    return scripted_histories(r) + progs
+
+
+def scripted_histories(r):
+    """A few fixed shapes that random histories hit too rarely: a key re-pointed to bytes it held
+    before (A, B, A), re-written after a removal, moved between algorithms and back, all with
+    identical (default) options so that the new record differs from an old one in its time only."""
+    A, B = b"value A " + r.randbytes(4), b"value B"
+    k, k2 = "кey".encode(), b"k2"
+    scripts = [
+        [("w", k, "sha256", A), ("w", k, "sha256", B), ("w", k, "sha256", A)],
+        [("w", k, "sha512", A), ("rm", k), ("w", k, "sha512", A)],
+        [("w", k, "sha1", A), ("w", k, "sha256", A), ("w", k, "sha1", A), ("rh", "sha256", A)],
+        [("w", k, "sha256", A), ("w", k2, "sha256", A), ("w", k, "sha256", B), ("w", k2, "sha256", B), ("w", k, "sha256", A)],
+    ]
+    progs = []
+    for si, sc in enumerate(scripts):
+        for fl in "sa":
+            ops, steps = [], []
+            keys = [k, k2]
+            for st in sc:
+                if st[0] == "w":
+                    ops.append(w_oneshot(fl, st[2], st[1], st[3])); steps.append((len(ops) - 1, "write", st[1], st[2], st[3]))
+                elif st[0] == "rm":
+                    ops.append(f"remove {fl} c0 {hx(st[1])}"); steps.append((len(ops) - 1, "remove", st[1], None, None))
+                else:
+                    ops.append(f"remove_hash {fl} c0 {sri_tok(st[1], st[2])}"); steps.append((len(ops) - 1, "remove_hash", None, st[1], st[2]))
+                for kk in keys:
+                    of = "a" if fl == "s" else "s"
+                    ops.append(f"metadata {of} c0 {hx(kk)}"); steps.append((len(ops) - 1, "meta", kk, None, None))
+                    ops.append(f"read {of} c0 {hx(kk)}"); steps.append((len(ops) - 1, "read", kk, None, None))
+            ops.append("list c0"); steps.append((len(ops) - 1, "list", None, None, None))
+            progs.append(Program(f"script{si}{fl}", ops, tags={"steps": steps, "keys": keys, "variety": ("script", si, fl)}))
     return progs
 
 
@@ -1771,6 +1804,16 @@ def gen_hostile_state_programs(r, n):
                     f"ropen {fl} c0 R{2 * j + fi + 1} {hx(k)}", f"rreadall R{2 * j + fi + 1}", f"rcheck R{2 * j + fi + 1}"]
         ops += ["list c0"]
         progs.append(Program(f"huge-size-{huge}", ops, tags={"variety": ("huge", huge)}))
+    # a writer whose temp file (or the whole temp area) disappears between its last write and the commit:
+    # the commit must answer an error, not spin
+    for j, (fl, how) in enumerate([(fl_, how_) for fl_ in "sa" for how_ in ("clear", "rmtree_tmp", "rmtree_cache")]):
+        k = f"vanish{j}".encode()
+        wid = f"W{j + 1}"
+        ops = [w_oneshot("s", "sha256", b"keep", b"kept"),
+               f"wopen {fl} c0 {wid} {hx(k)} algo=sha256 size=- sri=- time=- meta=- raw=-", f"wwrite {wid} {hx(b'will vanish %d' % j)}",
+               {"clear": f"clear {fl} c0", "rmtree_tmp": "rmtree c0/tmp", "rmtree_cache": "rmtree c0"}[how],
+               f"wcommit {wid}", f"metadata s c0 {hx(k)}", w_oneshot(fl, "sha256", k, b"afterwards"), f"read s c0 {hx(k)}"]
+        progs.append(Program(f"vanish-{fl}-{how}", ops, tags={"variety": ("vanish", fl, how)}))
     # wrong node kinds where files are expected
     for j, (what, mk) in enumerate([
             ("dir_at_bucket", lambda: [f"mkdir c0/{L.bucket_rel(b'k')}"]),
